@@ -42,7 +42,8 @@ def run_worker(modname, h, tier, idx, tmpdir):
     cfg = h.tier(tier)
     out = os.path.join(tmpdir, '%s-%d.json' % (h.name, idx))
     env = dict(os.environ)
-    env['PYTHONPATH'] = ROOT
+    # ZVERIF_SRC (development only): analyse another checkout's src/ instead of /repo's editable install
+    env['PYTHONPATH'] = (os.environ['ZVERIF_SRC'] + os.pathsep if os.environ.get('ZVERIF_SRC') else '') + ROOT
     env['PYTHONHASHSEED'] = '0'
     env.pop('PURE_PYTHON', None)
     if h.pure_python:
@@ -85,7 +86,7 @@ def replay_file(pid, h, modname, cex):
 def run_replay(path, pure_python=False):
     """Returns (status, text): status in reproduced / passed / error."""
     env = dict(os.environ)
-    env['PYTHONPATH'] = ROOT
+    env['PYTHONPATH'] = (os.environ['ZVERIF_SRC'] + os.pathsep if os.environ.get('ZVERIF_SRC') else '') + ROOT
     env.pop('PURE_PYTHON', None)
     if pure_python:
         env['PURE_PYTHON'] = '1'
